@@ -198,7 +198,7 @@ def _make(arrangement):
                     foreign_result.append(call(A, env_for("/a/" + pb, qb, "cb", "hb"))[0][0][0][:3])   # same app, other thread
                 finally:
                     stubs.SimThreads.cur = "T0"
-        elif arrangement in ("alternating", "shared_errors_map", "status_phrase") or arrangement.startswith("default_outer"):
+        elif arrangement in ("alternating", "shared_errors_map", "status_phrase", "signed_cookies") or arrangement.startswith("default_outer"):
             foreign = lambda A: None         # (default_outer*: set below, the default application is the outer party)
         else:
             raise ValueError(arrangement)
@@ -225,6 +225,54 @@ def _make(arrangement):
                     code, rb[0][0][0], rb[1], want)
             if not ra[0][0][0].startswith("%d Phrase-of-A-" % code):
                 return "application A lost its own reason phrase: %r" % (ra[0][0][0],)
+            cover("ok")
+            return None
+        if arrangement == "signed_cookies":
+            # two applications keep signed cookies under secrets of their own; a client sends the cookie one of them issued
+            # to both (same host, other port): the issuer reads its value, the other one - which cannot verify it - reads
+            # what it reads when it is alone in the process (the default), in whatever order they are asked
+            secA, secB = [("sec-A", "sec-B"), ("k", "kk")][si]
+
+            def cookie_app(secret):
+                app = ombott.Ombott()
+
+                def issue(v):
+                    app.response.set_cookie("s", v, secret=secret)
+                    return "issued"
+
+                def read(z):
+                    return repr((app.request.get_cookie("s", "nothing", secret=secret), app.request.get_cookie("s")))
+                app.route("/issue/:v", callback=issue)
+                app.route("/read/:z", callback=read)
+                return app
+
+            def cookie_from(result):
+                for k, v in result[0][0][1]:
+                    if k == "Set-Cookie":
+                        return v.split(";")[0]
+                return None
+
+            def read(app, cookie):
+                env = env_for("/read/" + pa, qa, "", ha)
+                env["HTTP_COOKIE"] = cookie
+                return call(app, env)
+            value = "val" + ca
+            issuedA = cookie_from(call(cookie_app(secA), env_for("/issue/" + value, "", "", "")))
+            issuedB = cookie_from(call(cookie_app(secB), env_for("/issue/" + value, "", "", "")))
+            if not issuedA or not issuedB:
+                return "no cookie issued"
+            # (the readers that cannot verify come first: nothing in the process has verified either cookie by then)
+            ref = {("B", "A"): read(cookie_app(secB), issuedA), ("A", "B"): read(cookie_app(secA), issuedB),
+                   ("A", "A"): read(cookie_app(secA), issuedA), ("B", "B"): read(cookie_app(secB), issuedB)}
+            if b"nothing" in ref["A", "A"][1] or b"nothing" in ref["B", "B"][1] or b"nothing" not in ref["B", "A"][1]:
+                return "alone: %r" % (ref,)
+            apps = {"A": cookie_app(secA), "B": cookie_app(secB)}
+            order = [[("A", "A"), ("B", "A"), ("B", "B"), ("A", "B")], [("B", "A"), ("A", "A"), ("A", "B"), ("B", "B")]][len(hv) % 2]
+            for who, whose in order + order:
+                got = read(apps[who], issuedA if whose == "A" else issuedB)
+                if got != ref[who, whose]:
+                    return "application %s was sent the cookie issued by application %s and answered %r; alone in the process %r" % (
+                        who, whose, got, ref[who, whose])
             cover("ok")
             return None
         if arrangement == "shared_errors_map":
@@ -494,7 +542,7 @@ def make_stmt(kindB):
 
 
 ARR = ["nested", "nested_json_error", "copy", "construct", "construct_request", "default_app", "default_outer",
-       "default_outer_json_error", "alternating", "shared_errors_map", "status_phrase", "threads"]
+       "default_outer_json_error", "alternating", "shared_errors_map", "status_phrase", "signed_cookies", "threads"]
 
 
 def queries(tier):
